@@ -89,7 +89,8 @@ inline void hash_combine_impl(hash_t &seed, const double &s)
         double d;
     } u;
     u.h = 0u;
-    u.d = s;
+    // 0.0 == -0.0, so both must hash alike
+    u.d = (s == 0.0) ? 0.0 : s;
     hash_combine(seed, u.h);
 }
 
